@@ -1572,7 +1572,16 @@ class Executor:
         if o.kind != 'heap' or (a & OFF_MASK) != 0:
             self.violation('mem', 'bad-free', 'free of non-heap or interior pointer (%s %s)' % (o.kind, o.site))
         if self.hbmon is not None:
-            self.hbmon.access(self, o, 0, o.size, True)
+            if o.size <= 4096:
+                self.hbmon.access(self, o, 0, o.size, True)
+            else:
+                # a large block: freeing it conflicts only with units that were accessed at all (object ids are
+                # never reused, so untouched units need no record)
+                hb = st.hb
+                if hb is not None and hb.active:
+                    oid = o.id
+                    for k in [k for k in hb.shadow if k[0] == oid]:
+                        self.hbmon.access(self, o, k[1] << 2, 4, True)
         t = Obj(o.id, o.size, 'freed-heap', '%s, freed in %s' % (o.site, self.fr.fn.name))
         t.alive = False
         st.objs[o.id] = t
